@@ -2,28 +2,12 @@
    wins, and a child process sees the same values as the script. *)
 From Coq Require Import List Bool Arith NArith Lia.
 From Coq.Strings Require Import Byte.
-From GI Require Import Lib.Bytes Gen.TsParseConsts TsParse.TsParse TsParse.TsParseFacts.
+From GI Require Import Lib.Bytes Gen.TsParseConsts TsParse.TsParse TsParse.TsSpec TsParse.TsParseFacts.
 Import ListNotations.
 Local Notation bytes := (list byte) (only parsing).
 
 (* ------------------------------------------------------------------ the specification: last binding in the list *)
 
-(* value of the last entry K=V of the list whose K (text before the first separator) is k *)
-Fixpoint list_get (l : list bytes) (k : bytes) : option bytes :=
-  match l with
-  | [] => None
-  | kv :: r =>
-      match list_get r k with
-      | Some v => Some v
-      | None =>
-          match split_kv kv with
-          | Some (k', v) => if bytes_eqb k' k then Some v else None
-          | None => None
-          end
-      end
-  end.
-
-Definition or_empty (o : option bytes) : bytes := match o with Some v => v | None => [] end.
 
 (* ts.envMap agrees with ts.env *)
 Definition consistent (st : ts_env) : Prop :=
